@@ -240,13 +240,21 @@ def line_search(
     # So we need to use the old minpack2 Fortran implementation
     is_use_minpack2: bool = Version(spversion) < Version("1.12")
 
+    def x_at(alpha: float) -> NDArrayFloat:
+        """Return the trial point for a steplength of `alpha`, kept inside the box.
+
+        In floating point x0 + alpha * d can leave the box by a rounding error when
+        alpha is the maximum feasible steplength.
+        """
+        return np.clip(x0 + alpha * d, lb, ub)
+
     def phi(alpha: float) -> float:
         """Return the objective function for a steplength of `alpha`"""
-        return sf.fun(x0 + alpha * d)
+        return sf.fun(x_at(alpha))
 
     def dphi(alpha: float) -> NDArrayFloat:
         """Return the gradient of `phi` with respect to alpha."""
-        return sf.grad(x0 + alpha * d).dot(d)
+        return sf.grad(x_at(alpha)).dot(d)
 
     task = b"START"
     f_m1 = f0
@@ -295,7 +303,7 @@ def line_search(
 
         if task[:2] == b"FG":
             steplength_0 = steplength
-            f_m1, dphi_m1 = sf.fun_and_grad(x0 + steplength * d)
+            f_m1, dphi_m1 = sf.fun_and_grad(x_at(steplength))
             dphi_m1 = dphi_m1.dot(d)
             if f_m1 < best_f:
                 best_stp, best_f = steplength, f_m1
